@@ -16,7 +16,12 @@ KNOWN = "known_C05"
 SHARD = 60
 RULE = ("programs over the documents of 1-3 jobs + the project document, each through 1-3 Job/Project objects: "
         "item/attribute set, del, update, setdefault, pop, clear, reset (also via `job.document = d`), nested dict and "
-        "list mutation by path, reads through every object; lifecycle items (init, remove, re-key) outside blocks; "
+        "list mutation by path, reads through every object; a root-level clear of a job document also spelled job.clear() / "
+        "job.reset(); Job objects obtained by open_job(statepoint), by iteration, by open_job(id=), by signac.get_job(<abs / "
+        "relative job directory>) (project documents also through get_job(...).project), provenance of the Project object "
+        "(init_project, get_project abs / rel, Project(rel), Project(path with ..), symlinked prefix); shallow copies "
+        "(copy.copy before the document was accessed) that follow a state point change made through another copy; "
+        "lifecycle items (init, remove, re-key, move, open by cached id) outside blocks (remove / init also inside); "
         "each base sequence is run unbuffered, wrapped in `with signac.buffered()` (capacities default/0/1/small), and "
         "with random nested sub-blocks + set_buffer_capacity; JSON backend thread support on and off. "
         "quick: seeded random sequences (<=40 ops) + golden scripts; thorough: additionally all sequences of length "
